@@ -220,15 +220,15 @@ structure PQ (T β : Type) where
 inductive Op (T : Type) where
   | add (t : T) (p : Int)      -- `add(task, priority)`; `p` = the number `float(priority or 0)`
   | remove (t : T)
-  | pop (dflt : Bool)          -- `pop()` / `pop(default)`
-  | peek (dflt : Bool)
+  | pop (dflt : Option Nat)    -- `pop()` = none / `pop(default)` = some i, i naming WHICH object was given
+  | peek (dflt : Option Nat)
   | len
 deriving Repr
 
 inductive Out (T : Type) where
   | none                       -- returned None
   | task (t : T)
-  | dflt                       -- returned the given default
+  | dflt (i : Nat)             -- returned the given default (object #i)
   | len (n : Nat)
   | keyError
   | indexError
@@ -274,20 +274,24 @@ def cull : Nat → β → β
         | none => b
         | some (_, b') => cull fuel b'
 
-def emptyOut (dflt : Bool) : Out T := if dflt then .dflt else .indexError
+/-- `if default is not _REMOVED: return default` / `raise IndexError`: ANY given object is returned -/
+def emptyOut (dflt : Option Nat) : Out T :=
+  match dflt with
+  | some i => .dflt i
+  | none => .indexError
 
 /-- `peek(default)` after `_cull()` left the backend `b` -/
-def PQ.peekAt (s : PQ T β) (b : β) (dflt : Bool) : PQ T β × Out T :=
+def PQ.peekAt (s : PQ T β) (b : β) (dflt : Option Nat) : PQ T β × Out T :=
   if B.size b = 0 then (⟨b, s.emap, s.counter⟩, emptyOut dflt)
   else match B.front b with
     | none => (⟨b, s.emap, s.counter⟩, emptyOut dflt)
     | some e => (⟨b, s.emap, s.counter⟩, match e.task with | some t => .task t | none => .sentinel)
 
-def PQ.peek (s : PQ T β) (dflt : Bool) : PQ T β × Out T :=
+def PQ.peek (s : PQ T β) (dflt : Option Nat) : PQ T β × Out T :=
   s.peekAt B (cull B (B.size s.pq) s.pq) dflt
 
 /-- `pop(default)` after `_cull()` left the backend `b` -/
-def PQ.popAt (s : PQ T β) (b : β) (dflt : Bool) : PQ T β × Out T :=
+def PQ.popAt (s : PQ T β) (b : β) (dflt : Option Nat) : PQ T β × Out T :=
   if B.size b = 0 then (⟨b, s.emap, s.counter⟩, emptyOut dflt)
   else match B.popFront b with
     | none => (⟨b, s.emap, s.counter⟩, emptyOut dflt)
@@ -299,7 +303,7 @@ def PQ.popAt (s : PQ T β) (b : β) (dflt : Bool) : PQ T β × Out T :=
         | none => (⟨b', s.emap, s.counter⟩, .keyError)
         | some _ => (⟨b', emErase t s.emap, s.counter⟩, .task t)
 
-def PQ.pop (s : PQ T β) (dflt : Bool) : PQ T β × Out T :=
+def PQ.pop (s : PQ T β) (dflt : Option Nat) : PQ T β × Out T :=
   s.popAt B (cull B (B.size s.pq) s.pq) dflt
 
 def PQ.step (s : PQ T β) : Op T → PQ T β × Out T
